@@ -632,6 +632,44 @@ func (rn *run) backlogPhase(round int) {
 	}
 }
 
+// leaveBacklog precommits a few txs that are never allowed to commit before the store is closed: the
+// reopened store reloads them from the tx log, the next phase allows and commits them, and new txs
+// are written after them (their committers were never acknowledged, so they are audited through the
+// chain / TxReader checks over the whole committed range, not through the ledger).
+func (rn *run) leaveBacklog(round int) {
+	r := fw.NewRand(rn.c.Seed, fmt.Sprintf("c02/%s/round%d/leave-backlog", rn.cf.Name, round))
+	st := rn.st
+	base := st.LastPrecommittedTxID()
+	st.AllowCommitUpto(base)
+	K := 1 + r.IntN(3)
+	ctx, cancel := context.WithCancel(context.Background())
+	done := make(chan struct{}, K)
+	for i := 0; i < K; i++ {
+		es := rn.genEntries(r, 200+i)
+		go func() {
+			defer func() { done <- struct{}{} }()
+			tx, err := st.NewWriteOnlyTx(ctx)
+			if err != nil {
+				return
+			}
+			for _, e := range es {
+				tx.Set(e.Key, mdFrom(e.MD, r), e.Value)
+			}
+			tx.Commit(ctx) // returns when cancelled or when the store is closed
+		}()
+	}
+	for i := 0; i < 20000 && st.LastPrecommittedTxID() < base+uint64(K); i++ {
+		time.Sleep(100 * time.Microsecond)
+	}
+	cancel()
+	for i := 0; i < K; i++ {
+		<-done
+	}
+	if st.LastPrecommittedTxID() > st.LastCommittedTxID() {
+		rn.c.Distinct(fmt.Sprintf("closed-with-precommitted-backlog/%d/%s", st.LastPrecommittedTxID()-st.LastCommittedTxID(), rn.cf.Name))
+	}
+}
+
 // quiescent audit of everything acknowledged, against the live store and a cold copy
 func (rn *run) quiescentAudit(label string, cold bool) {
 	st := rn.st
@@ -774,6 +812,9 @@ func runConfig(c *fw.Ctx, cf config, rounds, opsPerRound int) {
 		rn.quiescentAudit("quiescent", round%2 == 1)
 		if round < rounds-1 {
 			// close / reopen cycle
+			if cf.ExtAllow {
+				rn.leaveBacklog(round)
+			}
 			if err := rn.st.Close(); err != nil {
 				rn.viol("close/error", err.Error())
 			}
